@@ -6,7 +6,7 @@
       with a defect.
     - [gen_group_assembles]: Program.Assemble cannot fail on the code generated for a group.
     - [compile_reject_iff], [compile_error_class], [compile_accepts]: Policy.Assemble. *)
-From Coq Require Import List NArith Bool Lia String.
+From Coq Require Import List NArith PeanoNat Bool Lia String.
 From Seccomp Require Import Words Machine Result Assembler AssemblerProofs Policy Spec CompileProofs.
 Import ListNotations.
 Open Scope N_scope.
@@ -356,3 +356,692 @@ Proof.
   - split; [intros _; discriminate|intros _; exists es; reflexivity].
   - split; [intros [es' E]; discriminate|intros N; exfalso; apply N; reflexivity].
 Qed.
+
+(** ** C. Program.Assemble cannot fail on the code generated for a group *)
+
+(** the label has a marker ahead / a marker ahead with at least one real instruction in between *)
+Definition ahead (l:label) (r:list item) : Prop := dist l r <> None.
+Definition ahead1 (l:label) (r:list item) : Prop := exists d, dist l r = Some d /\ d <> 0.
+
+(** what Assemble demands of a conditional jump in front of [r] (apart from the reach) *)
+Definition jump_ok (tl fl:label) (r:list item) : Prop :=
+  ahead tl r /\ ahead fl r /\ (ahead1 tl r \/ ahead1 fl r).
+
+Fixpoint wf_jumps (its:list item) : Prop :=
+  match its with
+  | [] => True
+  | TJmpIf _ _ tl fl :: r => jump_ok tl fl r /\ wf_jumps r
+  | TJaL l :: r => ahead l r /\ wf_jumps r
+  | _ :: r => wf_jumps r
+  end.
+
+Lemma dist_real it r l : is_real it = true -> dist l (it :: r) = option_map N.succ (dist l r).
+Proof. destruct it; cbn [is_real]; intros H; try discriminate; reflexivity. Qed.
+
+Lemma dist_label l l' r : dist l (TLabel l' :: r) = if l' =? l then Some 0 else dist l r.
+Proof. reflexivity. Qed.
+
+Lemma ahead1_ahead l r : ahead1 l r -> ahead l r.
+Proof. intros (d & H & _). unfold ahead. rewrite H. discriminate. Qed.
+
+Lemma ahead_label_same l r : ahead l (TLabel l :: r).
+Proof. unfold ahead. cbn [dist]. rewrite N.eqb_refl. discriminate. Qed.
+
+Lemma ahead_cons l it r : ahead l r -> ahead l (it :: r).
+Proof.
+  unfold ahead. intros H. destruct it; cbn [dist]; try (destruct (dist l r); [discriminate|congruence]).
+  destruct (l0 =? l); [discriminate|exact H].
+Qed.
+
+Lemma ahead_app l x r : ahead l r -> ahead l (x ++ r).
+Proof. intros H. induction x as [|it x IH]; [exact H|]. cbn [app]. apply ahead_cons. exact IH. Qed.
+
+Lemma ahead1_real l it r : is_real it = true -> ahead l r -> ahead1 l (it :: r).
+Proof.
+  unfold ahead, ahead1. intros Hr H. rewrite (dist_real _ _ _ Hr).
+  destruct (dist l r) as [d|]; [|congruence]. exists (N.succ d). split; [reflexivity|lia].
+Qed.
+
+Lemma ahead1_label l l' r : l' <> l -> ahead1 l r -> ahead1 l (TLabel l' :: r).
+Proof.
+  unfold ahead1. intros Hne H. cbn [dist]. apply N.eqb_neq in Hne. rewrite Hne. exact H.
+Qed.
+
+Lemma ahead1_app l x r : ~ In l (markers x) -> ahead1 l r -> ahead1 l (x ++ r).
+Proof.
+  intros Hn H. induction x as [|it x IH]; [exact H|]. cbn [app].
+  destruct it; try (apply ahead1_real; [reflexivity|]; apply ahead_app; apply ahead1_ahead; exact H).
+  apply ahead1_label.
+  - intros ->. apply Hn. simpl. auto.
+  - apply IH. intro Hi. apply Hn. simpl. auto.
+Qed.
+
+Ltac ahead_tac :=
+  first [ assumption
+        | apply ahead_label_same
+        | apply ahead1_ahead; assumption
+        | apply ahead_cons; ahead_tac
+        | apply ahead_app; ahead_tac ].
+Ltac ahead1_tac :=
+  first [ assumption
+        | apply ahead1_label; [lia|ahead1_tac]
+        | apply ahead1_real; [first [reflexivity|apply tramp_real]|ahead_tac] ].
+Ltac jump_tac :=
+  first [ assumption
+        | split; [ahead_tac|split; [ahead_tac|first [assumption|left; ahead1_tac|right; ahead1_tac]]] ].
+Ltac wf_tac :=
+  repeat lazymatch goal with
+  | |- jump_ok _ _ _ /\ _ => split; [jump_tac|]
+  | |- ahead _ _ /\ _ => split; [ahead_tac|]
+  end; try assumption.
+
+(** *** the generators *)
+Lemma gen_cond_wf le c mt nm n r :
+  mt < n -> nm < n -> op_valid (c_op c) = true ->
+  jump_ok mt nm r -> wf_jumps r ->
+  wf_jumps (fst (gen_cond le c mt nm n) ++ r).
+Proof.
+  intros Hmt Hnm Hop Hj Hr. pose proof Hj as (Amt & Anm & Aor).
+  unfold gen_cond, jmp_if_true.
+  destruct (c_op c); try discriminate; cbn [fst app wf_jumps]; wf_tac.
+Qed.
+
+Lemma gen_cond_real le c mt nm n :
+  op_valid (c_op c) = true ->
+  exists it x, fst (gen_cond le c mt nm n) = it :: x /\ is_real it = true.
+Proof.
+  intros Hop. unfold gen_cond. destruct (c_op c); try discriminate; cbn [fst];
+  eexists; eexists; (split; [reflexivity|reflexivity]).
+Qed.
+
+Lemma gen_conds_real le cs action nm n :
+  cs <> [] -> Forall cnd_ok cs ->
+  exists it x, fst (gen_conds le cs action nm n) = it :: x /\ is_real it = true.
+Proof.
+  intros Hne Hok. destruct cs as [|c rest]; [congruence|]. inversion Hok as [|? ? [_ Hop] _]; subst.
+  cbn [gen_conds].
+  destruct (gen_cond_real le c (match rest with [] => action | _ => n end) nm (n+1) Hop) as (it & x & E & R).
+  destruct (gen_cond le c _ nm (n+1)) as [code n1]. cbn [fst] in E. subst code.
+  destruct (gen_conds le rest action nm n1) as [more n2]. cbn [fst app]. eauto.
+Qed.
+
+Lemma gen_conds_cons_ne le c rest action nm n :
+  rest <> [] ->
+  gen_conds le (c :: rest) action nm n =
+  let '(code, n1) := gen_cond le c n nm (n+1) in
+  let '(more, n2) := gen_conds le rest action nm n1 in
+  (code ++ TLabel n :: more, n2).
+Proof. intros H. destruct rest; [congruence|reflexivity]. Qed.
+
+Lemma gen_conds_wf le cs : forall action nm n r,
+  Forall cnd_ok cs -> action < n -> nm < n ->
+  jump_ok action nm r -> wf_jumps r ->
+  wf_jumps (fst (gen_conds le cs action nm n) ++ r).
+Proof.
+  induction cs as [|c rest IH]; intros action nm n r Hok Ha Hn Hj Hr; [exact Hr|].
+  inversion Hok as [|? ? [_ Hop] Hrest]; subst.
+  pose proof Hj as (Aa & Anm & Aor).
+  assert (Hcase: rest = [] \/ rest <> []) by (destruct rest; [left; reflexivity|right; discriminate]).
+  destruct Hcase as [->|Hne].
+  - cbn [gen_conds].
+    pose proof (gen_cond_wf le c action nm (n+1)) as W.
+    destruct (gen_cond le c action nm (n+1)) as [code n1]. cbn [fst snd app] in *.
+    rewrite <- app_assoc. cbn [app]. apply W; [lia|lia|exact Hop| |exact Hr].
+    destruct Aor as [A1|A1]; jump_tac.
+  - rewrite (gen_conds_cons_ne le c rest action nm n Hne).
+    pose proof (gen_cond_fresh le c n nm (n+1)) as [F1 _].
+    pose proof (gen_cond_wf le c n nm (n+1)) as W.
+    destruct (gen_cond le c n nm (n+1)) as [code n1]. cbn [fst snd] in F1, W.
+    specialize (IH action nm n1 r Hrest).
+    destruct (gen_conds_real le rest action nm n1 Hne Hrest) as (it & x & E & R).
+    destruct (gen_conds le rest action nm n1) as [more n2]. cbn [fst snd] in IH, E |- *. subst more.
+    rewrite <- app_assoc. cbn [app]. apply W; [lia|lia|exact Hop| |].
+    + split; [ahead_tac|split; [ahead_tac|]]. right.
+      apply ahead1_label; [lia|]. apply ahead1_real; [exact R|ahead_tac].
+    + cbn [wf_jumps]. apply IH; [lia|lia|exact Hj|exact Hr].
+Qed.
+
+Lemma gen_list_wf le cs action n r :
+  list_ok cs -> action < n -> ahead1 action r -> wf_jumps r ->
+  wf_jumps (fst (gen_list le cs action n) ++ r).
+Proof.
+  intros [Hne Hok] Ha A1 Hr. unfold gen_list.
+  pose proof (gen_conds_wf le cs action n (n+1) (TLabel n :: r) Hok) as W.
+  destruct (gen_conds le cs action n (n+1)) as [code n1]. cbn [fst snd] in *.
+  rewrite <- app_assoc. cbn [app]. apply W; [lia|lia| |exact Hr]. jump_tac.
+Qed.
+
+Lemma gen_lists_wf le ls : forall action n r,
+  Forall list_ok ls -> action < n -> ahead1 action r -> wf_jumps r ->
+  wf_jumps (fst (gen_lists le ls action n) ++ r).
+Proof.
+  induction ls as [|cs rest IH]; intros action n r Hok Ha A1 Hr; [exact Hr|].
+  inversion Hok as [|? ? Hcs Hrest]; subst. cbn [gen_lists].
+  pose proof (gen_list_fresh le cs action n) as [F1 _].
+  pose proof (gen_list_wf le cs action n) as W.
+  destruct (gen_list le cs action n) as [code n1]. cbn [fst snd] in *.
+  pose proof (gen_lists_fresh le rest action n1) as [_ G2].
+  specialize (IH action n1 r Hrest).
+  destruct (gen_lists le rest action n1) as [more n2]. cbn [fst snd] in *.
+  rewrite <- app_assoc. apply W; [exact Hcs|exact Ha| |apply IH; [lia|exact A1|exact Hr]].
+  apply ahead1_app; [|exact A1]. intro Hi. apply G2 in Hi. lia.
+Qed.
+
+Lemma gen_ent_wf le e action n r :
+  entry_ok e -> action < n -> ahead1 action r -> wf_jumps r ->
+  wf_jumps (fst (gen_ent le e action n) ++ r).
+Proof.
+  intros Hok Ha A1 Hr. destruct e as [num|num ls]; cbn [gen_ent].
+  - unfold jmp_if_true. cbn [fst app wf_jumps]. wf_tac.
+  - destruct Hok as [_ Hok].
+    pose proof (gen_lists_fresh le ls action (n+2)) as [_ G2].
+    pose proof (gen_lists_wf le ls action (n+2) (TLd 0 :: TLabel n :: r) Hok) as W.
+    destruct (gen_lists le ls action (n+2)) as [code n1]. cbn [fst snd] in *.
+    unfold jmp_if_true. rewrite <- !app_assoc. cbn [app wf_jumps]. split.
+    + split; [|split; [ahead_tac|left]].
+      * apply ahead_cons. apply ahead_app. ahead_tac.
+      * apply ahead1_label; [lia|]. apply ahead1_app; [intro Hi; apply G2 in Hi; lia|]. ahead1_tac.
+    + apply W; [lia|ahead1_tac|exact Hr].
+Qed.
+
+Lemma gen_ents_wf le es : forall action n r,
+  Forall entry_ok es -> action < n -> ahead1 action r -> wf_jumps r ->
+  wf_jumps (fst (gen_ents le es action n) ++ r).
+Proof.
+  induction es as [|e rest IH]; intros action n r Hok Ha A1 Hr; [exact Hr|].
+  inversion Hok as [|? ? He Hrest]; subst. cbn [gen_ents].
+  pose proof (gen_ent_fresh le e action n) as [F1 _].
+  pose proof (gen_ent_wf le e action n) as W.
+  destruct (gen_ent le e action n) as [code n1]. cbn [fst snd] in *.
+  pose proof (gen_ents_fresh le rest action n1) as [_ G2].
+  specialize (IH action n1 r Hrest).
+  destruct (gen_ents le rest action n1) as [more n2]. cbn [fst snd] in *.
+  rewrite <- app_assoc. apply W; [exact He|exact Ha| |apply IH; [lia|exact A1|exact Hr]].
+  apply ahead1_app; [|exact A1]. intro Hi. apply G2 in Hi. lia.
+Qed.
+
+Lemma gen_group_wf le es w : Forall entry_ok es -> wf_jumps (fst (gen_group le es w)).
+Proof.
+  intros Hok. unfold gen_group.
+  pose proof (gen_ents_fresh le es 2 3) as [G1 _].
+  pose proof (gen_ents_wf le es 2 3) as W.
+  destruct (gen_ents le es 2 3) as [code n1]. cbn [fst snd] in *.
+  apply W; [exact Hok|lia| |].
+  - apply ahead1_real; [reflexivity|]. apply ahead_label_same.
+  - cbn [wf_jumps]. split; [|exact I].
+    apply ahead_cons. apply ahead_cons. apply ahead_label_same.
+Qed.
+
+(** *** the bridges *)
+Lemma relax_dist its : forall f l d,
+  l < f -> dist l its = Some d ->
+  exists d', dist l (fst (relax its f)) = Some d' /\ d <= d'.
+Proof.
+  induction its as [|it r IH]; intros f l d Hl Hd; [discriminate|]. cbn [relax].
+  pose proof (relax_fresh_mono r f) as Hmono.
+  assert (IH': forall d0, dist l r = Some d0 -> exists d', dist l (fst (relax r f)) = Some d' /\ d0 <= d')
+    by (intros d0 H0; apply IH; assumption).
+  clear IH. destruct (relax r f) as [r' f'] eqn:E. cbn [fst snd] in *.
+  assert (Nf: (f' =? l) = false) by (apply N.eqb_neq; lia).
+  assert (Nf1: (f' + 1 =? l) = false) by (apply N.eqb_neq; lia).
+  assert (Hreal: forall it, is_real it = true -> dist l (it :: r) = Some d ->
+            exists d', option_map N.succ (dist l r') = Some d' /\ d <= d').
+  { intros it0 R H0. rewrite (dist_real _ _ _ R) in H0.
+    destruct (dist l r) as [d0|]; [|discriminate]. cbn [option_map] in H0. injection H0 as <-.
+    destruct (IH' d0 eq_refl) as (d' & D' & L'). rewrite D'. exists (N.succ d'). split; [reflexivity|lia]. }
+  destruct it.
+  - cbn [fst]. rewrite dist_real by reflexivity. eapply Hreal; [|exact Hd]. reflexivity.
+  - cbn [fst]. rewrite dist_real by reflexivity. eapply Hreal; [|exact Hd]. reflexivity.
+  - destruct (Hreal (TJmpIf c k tl fl) eq_refl Hd) as (d' & D' & L').
+    destruct (dist l r') as [d0|] eqn:D0; [|discriminate]. cbn [option_map] in D'. injection D' as <-.
+    unfold fix_jump.
+    destruct (far (dist tl r') || is255 (dist tl r') && far (dist fl r')),
+             (far (dist fl r') || is255 (dist fl r') && far (dist tl r')); cbn [fst].
+    + rewrite dist_real by reflexivity. rewrite dist_label, Nf, dist_tramp, dist_label, Nf1, dist_tramp, D0. cbn [option_map].
+      eexists. split; [reflexivity|]. cbn [option_map]. lia.
+    + rewrite dist_real by reflexivity. rewrite dist_label, Nf, dist_tramp, D0. cbn [option_map].
+      eexists. split; [reflexivity|]. cbn [option_map]. lia.
+    + rewrite dist_real by reflexivity. rewrite dist_label, Nf, dist_tramp, D0. cbn [option_map].
+      eexists. split; [reflexivity|]. cbn [option_map]. lia.
+    + rewrite dist_real by reflexivity. rewrite D0. cbn [option_map]. eexists. split; [reflexivity|]. lia.
+  - cbn [fst]. rewrite dist_real by reflexivity. eapply Hreal; [|exact Hd]. reflexivity.
+  - cbn [fst]. cbn [dist] in *. destruct (l0 =? l).
+    + injection Hd as <-. exists 0. split; [reflexivity|lia].
+    + apply IH'. exact Hd.
+Qed.
+
+Lemma ahead_relax its f l : l < f -> ahead l its -> ahead l (fst (relax its f)).
+Proof.
+  unfold ahead. intros Hl H. destruct (dist l its) as [d|] eqn:D; [|congruence].
+  destruct (relax_dist its f l d Hl D) as (d' & D' & _). rewrite D'. discriminate.
+Qed.
+
+Lemma ahead1_relax its f l : l < f -> ahead1 l its -> ahead1 l (fst (relax its f)).
+Proof.
+  intros Hl (d & D & Hd). destruct (relax_dist its f l d Hl D) as (d' & D' & L').
+  exists d'. split; [exact D'|lia].
+Qed.
+
+Lemma tramp_wf l r x : ahead l x -> wf_jumps x -> wf_jumps (tramp l r :: x).
+Proof.
+  intros A W. destruct (tramp_cases l r) as [[v E]|E]; rewrite E; cbn [wf_jumps]; [exact W|split; assumption].
+Qed.
+
+Lemma label_wf l x : wf_jumps x -> wf_jumps (TLabel l :: x).
+Proof. intros H. exact H. Qed.
+
+Lemma fix_jump_wf c k tl fl r f :
+  tl < f -> fl < f -> jump_ok tl fl r -> wf_jumps r ->
+  wf_jumps (fst (fix_jump c k tl fl r f)).
+Proof.
+  intros Ht Hf Hj Hr. pose proof Hj as (At & Af & Aor). unfold fix_jump.
+  destruct (far (dist tl r) || is255 (dist tl r) && far (dist fl r)),
+           (far (dist fl r) || is255 (dist fl r) && far (dist tl r)); cbn [fst].
+  - split; [jump_tac|]. apply label_wf, tramp_wf; [ahead_tac|]. apply label_wf, tramp_wf; assumption.
+  - split; [jump_tac|]. apply label_wf, tramp_wf; assumption.
+  - split; [jump_tac|]. apply label_wf, tramp_wf; assumption.
+  - split; assumption.
+Qed.
+
+Lemma relax_wf its : forall f, below f its -> wf_jumps its -> wf_jumps (fst (relax its f)).
+Proof.
+  induction its as [|it r IH]; intros f Hb Hw; [exact I|]. cbn [relax].
+  pose proof (below_tail _ _ _ Hb) as Hbr.
+  pose proof (relax_fresh_mono r f) as Hmono.
+  pose proof (fun l => ahead_relax r f l) as AR.
+  pose proof (fun l => ahead1_relax r f l) as AR1.
+  specialize (IH f Hbr).
+  destruct (relax r f) as [r' f'] eqn:E. cbn [fst snd] in *.
+  destruct it; cbn [fst wf_jumps] in *; try (apply IH; exact Hw).
+  - destruct Hw as [(At & Af & Aor) Hw].
+    assert (Ht: tl < f) by (eapply Hb; [left; reflexivity|simpl; auto]).
+    assert (Hf: fl < f) by (eapply Hb; [left; reflexivity|simpl; auto]).
+    apply fix_jump_wf; [lia|lia| |apply IH; exact Hw].
+    split; [apply AR; assumption|split; [apply AR; assumption|]].
+    destruct Aor as [A|A]; [left|right]; apply AR1; assumption.
+  - destruct Hw as [A Hw].
+    assert (Hl: l < f) by (eapply Hb; [left; reflexivity|simpl; auto]).
+    split; [apply AR; assumption|apply IH; exact Hw].
+Qed.
+
+(** *** the two phases of Assemble *)
+Lemma wf_resolvable its : wf_jumps its -> jumps_resolvable its = true.
+Proof.
+  induction its as [|it r IH]; intros Hw; [reflexivity|].
+  destruct it; cbn [wf_jumps jumps_resolvable] in *; try (apply IH; exact Hw).
+  - destruct Hw as [(At & Af & _) Hw]. unfold ahead in *.
+    destruct (dist tl r); [|congruence]. destruct (dist fl r); [|congruence]. cbn. apply IH. exact Hw.
+  - apply IH. apply Hw.
+Qed.
+
+Lemma wf_resolve its :
+  wf_jumps its -> reach_ok its -> check_jumps its = None /\ exists p, resolve its = Some p.
+Proof.
+  induction its as [|it r IH]; intros Hw Hr; [split; [reflexivity|exists []; reflexivity]|].
+  destruct it; cbn [wf_jumps reach_ok check_jumps resolve] in *.
+  - destruct (IH Hw Hr) as [C [p P]]. split; [exact C|]. rewrite P. eexists. reflexivity.
+  - destruct (IH Hw Hr) as [C [p P]]. split; [exact C|]. rewrite P. eexists. reflexivity.
+  - destruct Hw as [(At & Af & Aor) Hw]. destruct Hr as (Rt & Rf & Hr).
+    destruct (IH Hw Hr) as [C [p P]]. unfold ahead in At, Af.
+    destruct (dist tl r) as [dt|] eqn:Dt; [|congruence].
+    destruct (dist fl r) as [df|] eqn:Df; [|congruence].
+    cbn [nearq] in Rt, Rf.
+    assert (Hnz: (dt =? 0) && (df =? 0) = false).
+    { apply andb_false_iff.
+      destruct Aor as [(d & D & Hd)|(d & D & Hd)]; [left|right]; apply N.eqb_neq; congruence. }
+    replace (255 <? dt) with false by (symmetry; apply N.ltb_ge; lia).
+    replace (255 <? df) with false by (symmetry; apply N.ltb_ge; lia).
+    replace (dt <=? 255) with true by (symmetry; apply N.leb_le; lia).
+    replace (df <=? 255) with true by (symmetry; apply N.leb_le; lia).
+    rewrite Hnz, P. cbn [orb andb negb]. split; [exact C|]. eexists. reflexivity.
+  - destruct Hw as [A Hw]. destruct (IH Hw Hr) as [C [p P]]. split; [exact C|]. unfold ahead in A.
+    destruct (dist l r) as [d|]; [|congruence]. rewrite P. eexists. reflexivity.
+  - apply IH; assumption.
+Qed.
+
+(** Assemble succeeds on every program whose jumps all have their labels set ahead and none of
+    which is useless *)
+Theorem assemble_wf its f : below f its -> wf_jumps its -> exists p, assemble its f = Ok p.
+Proof.
+  intros Hb Hw. unfold assemble. rewrite (wf_resolvable _ Hw). cbn [negb].
+  destruct (wf_resolve _ (relax_wf its f Hb Hw) (relax_reach its f Hb)) as [C [p P]].
+  rewrite C, P. exists p. reflexivity.
+Qed.
+
+Theorem gen_group_assembles le es w :
+  Forall entry_ok es ->
+  let '(its, n) := gen_group le es w in exists p, assemble its n = Ok p.
+Proof.
+  intros Hok.
+  pose proof (gen_group_below le es w) as Hb.
+  pose proof (gen_group_wf le es w Hok) as Hw.
+  destruct (gen_group le es w) as [its n]. cbn [fst snd] in *.
+  apply assemble_wf; assumption.
+Qed.
+Print Assumptions gen_group_assembles.
+
+(** ** D. Policy.Assemble: rejection *)
+
+(** a group that lists nothing has no defect (the compiler skips it without validating it) *)
+Lemma empty_group_no_defect ai g : g_names g = [] -> g_nwc g = [] -> ~ group_defect ai g.
+Proof.
+  intros En Ew. unfold group_defect, unknown_name, unknown_cond_name, duplicate_name, cond_and_uncond,
+    bad_arg, bad_op, no_conds. rewrite En, Ew.
+  intros [(a & [] & _)|[(a & [] & _)|[(i & j & a & b & sc & _ & Hi & _)|[(a & nc & sc & [] & _)|
+          [(nc & c & [] & _)|[(nc & c & [] & _)|(nc & [] & _)]]]]]].
+  destruct i; discriminate.
+Qed.
+
+(** [group_defect] is decidable: toSyscallsWithConditions decides it *)
+Lemma group_defect_dec ai g : {group_defect ai g} + {~ group_defect ai g}.
+Proof.
+  destruct (to_syscalls ai g) as [es|e] eqn:T.
+  - right. rewrite <- to_syscalls_reject_iff, T. discriminate.
+  - left. apply to_syscalls_reject_iff. destruct (to_syscalls_total ai g) as [es [H|H]]; congruence.
+Qed.
+
+(** the same in positive form: what a user has to make sure of *)
+Definition cnd_clean (c:cnd) : Prop := c_arg c <= 5 /\ op_valid (c_op c) = true.
+Definition group_clean (ai:arch_info) (g:group) : Prop :=
+  (forall a, In a (g_names g) -> num_of ai a <> None) /\
+  (forall nc, In nc (g_nwc g) -> num_of ai (nc_name nc) <> None) /\
+  NoDup (map (num_of ai) (g_names g)) /\
+  (forall a nc, In a (g_names g) -> In nc (g_nwc g) -> num_of ai a <> num_of ai (nc_name nc)) /\
+  (forall nc, In nc (g_nwc g) -> nc_conds nc <> [] /\ Forall cnd_clean (nc_conds nc)).
+
+Lemma group_clean_iff ai g : group_clean ai g <-> ~ group_defect ai g.
+Proof.
+  split.
+  - intros (K1 & K2 & K3 & K4 & K5)
+      [(a & Ha & Na)|[(nc & Hnc & Nnc)|[(i & j & a & b & sc & Hij & Hi & Hj & Na & Nb)|
+       [(a & nc & sc & Ha & Hnc & Na & Nnc)|[(nc & c & Hnc & Hc & Hx)|[(nc & c & Hnc & Hc & Hx)|(nc & Hnc & Hx)]]]]]].
+    + exact (K1 a Ha Na).
+    + exact (K2 nc Hnc Nnc).
+    + apply Hij. rewrite NoDup_nth_error in K3. apply K3.
+      * rewrite map_length. apply nth_error_Some. rewrite Hi. discriminate.
+      * rewrite (map_nth_error _ _ _ Hi), (map_nth_error _ _ _ Hj). congruence.
+    + apply (K4 a nc Ha Hnc). congruence.
+    + destruct (K5 nc Hnc) as [_ F]. rewrite Forall_forall in F. destruct (F c Hc) as [A _]. lia.
+    + destruct (K5 nc Hnc) as [_ F]. rewrite Forall_forall in F. destruct (F c Hc) as [_ A]. congruence.
+    + destruct (K5 nc Hnc) as [A _]. congruence.
+  - intros Hnd. repeat split.
+    + intros a Ha Na. apply Hnd. left. exists a. split; assumption.
+    + intros nc Hnc Nnc. apply Hnd. right; left. exists nc. split; assumption.
+    + apply NoDup_nth_error. intros i j Hi E.
+      destruct (Nat.eq_dec i j) as [Eij|Nij]; [exact Eij|]. exfalso.
+      rewrite map_length in Hi. apply nth_error_Some in Hi.
+      destruct (nth_error (g_names g) i) as [a|] eqn:Ei; [|congruence].
+      rewrite (map_nth_error _ _ _ Ei) in E. symmetry in E.
+      destruct (nth_error (g_names g) j) as [b|] eqn:Ej.
+      * rewrite (map_nth_error _ _ _ Ej) in E. injection E as E.
+        destruct (num_of ai a) as [sc|] eqn:Na.
+        -- apply Hnd. right; right; left. exists i, j, a, b, sc. repeat split; assumption.
+        -- apply Hnd. left. exists a. split; [eapply nth_error_In; exact Ei|exact Na].
+      * assert (Hlen: (j < List.length (map (num_of ai) (g_names g)))%nat)
+          by (apply nth_error_Some; rewrite E; discriminate).
+        rewrite map_length in Hlen. apply nth_error_Some in Hlen. congruence.
+    + intros a nc Ha Hnc E. destruct (num_of ai a) as [sc|] eqn:Na.
+      * apply Hnd. right; right; right; left. exists a, nc, sc. repeat split; try assumption. congruence.
+      * apply Hnd. left. exists a. split; assumption.
+    + intros E. apply Hnd. right; right; right; right; right; right. exists nc. split; assumption.
+    + apply Forall_forall. intros c Hc. split.
+      * destruct (N.le_gt_cases (c_arg c) 5) as [L|L]; [exact L|]. exfalso.
+        apply Hnd. right; right; right; right; left. exists nc, c. repeat split; assumption.
+      * destruct (op_valid (c_op c)) eqn:O; [reflexivity|]. exfalso.
+        apply Hnd. right; right; right; right; right; left. exists nc, c. repeat split; assumption.
+Qed.
+
+Section Compile.
+Variable le : bool.
+Variable k : consts.
+Variable ai : arch_info.
+
+Definition some_event : event := {| ev_nr := 0; ev_arch := 0; ev_ip := 0; ev_args := [] |}.
+
+(** one group: a defect gives the error "problems", no defect gives a program; nothing else happens *)
+Lemma compile_group_cases g :
+  (group_defect ai g /\ compile_group le k ai g = Error EProblems) \/
+  (~ group_defect ai g /\ exists p, compile_group le k ai g = Ok p).
+Proof.
+  assert (Hgen: forall es, to_syscalls ai g = Ok es ->
+            exists p, (let '(its, n) := gen_group le es (ret_word k (g_action g)) in assemble its n) = Ok p).
+  { intros es T. destruct (to_syscalls_spec ai some_event g es T) as [Hok _].
+    pose proof (gen_group_assembles le es (ret_word k (g_action g)) Hok) as A.
+    destruct (gen_group le es (ret_word k (g_action g))) as [its n]. exact A. }
+  destruct (to_syscalls_total ai g) as [es [T|T]].
+  - right. split; [rewrite <- to_syscalls_reject_iff, T; discriminate|].
+    unfold compile_group. destruct (g_names g) as [|n0 ns].
+    + destruct (g_nwc g) as [|w0 ws]; [exists []; reflexivity|]. rewrite T. apply Hgen. exact T.
+    + rewrite T. apply Hgen. exact T.
+  - left. pose proof (proj1 (to_syscalls_reject_iff ai g) T) as Hd. split; [exact Hd|].
+    unfold compile_group. destruct (g_names g) as [|n0 ns] eqn:En.
+    + destruct (g_nwc g) as [|w0 ws] eqn:Ew.
+      * exfalso. exact (empty_group_no_defect ai g En Ew Hd).
+      * rewrite T. reflexivity.
+    + rewrite T. reflexivity.
+Qed.
+
+Lemma compile_groups_cases gs :
+  ((exists g, In g gs /\ group_defect ai g) /\ compile_groups le k ai gs = Error EProblems) \/
+  ((forall g, In g gs -> ~ group_defect ai g) /\ exists p, compile_groups le k ai gs = Ok p).
+Proof.
+  induction gs as [|g rest IH]; cbn [compile_groups].
+  - right. split; [intros g []|exists []; reflexivity].
+  - destruct (compile_group_cases g) as [[Hd Hc]|[Hn [p Hc]]]; rewrite Hc.
+    + left. split; [exists g; split; [left; reflexivity|exact Hd]|reflexivity].
+    + destruct IH as [[(g' & Hin & Hd) Hr]|[Hall [q Hr]]]; rewrite Hr.
+      * left. split; [exists g'; split; [right; exact Hin|exact Hd]|reflexivity].
+      * right. split; [|exists (p ++ q); reflexivity].
+        intros g' [<-|Hin]; [exact Hn|apply Hall; exact Hin].
+Qed.
+
+(** which error comes out: the default action is checked first, then the presence of groups,
+    then the groups themselves; there is no other error *)
+Theorem compile_error_class pol e :
+  compile le k ai pol = Error e <->
+  (is_named k (p_default pol) = false /\ e = EDefaultAction) \/
+  (is_named k (p_default pol) = true /\ p_groups pol = [] /\ e = ENoSyscalls) \/
+  (is_named k (p_default pol) = true /\ p_groups pol <> [] /\
+   (exists g, In g (p_groups pol) /\ group_defect ai g) /\ e = EProblems).
+Proof.
+  unfold compile. destruct (is_named k (p_default pol)) eqn:Hn; cbn [negb].
+  - destruct (p_groups pol) as [|g0 gs0] eqn:Eg.
+    + split.
+      * intros H. injection H as <-. right; left. repeat split; reflexivity.
+      * intros [[H _]|[(_ & _ & ->)|(_ & H & _)]]; [discriminate|reflexivity|congruence].
+    + destruct (compile_groups_cases (g0 :: gs0)) as [[Hd Hc]|[Hall [p Hc]]]; rewrite Hc.
+      * split.
+        -- intros H. injection H as <-. right; right. repeat split; [discriminate|exact Hd].
+        -- intros [[H _]|[(_ & H & _)|(_ & _ & _ & ->)]]; [discriminate|discriminate|reflexivity].
+      * split; [discriminate|].
+        intros [[H _]|[(_ & H & _)|(_ & _ & (g & Hin & Hd) & _)]]; [discriminate|discriminate|].
+        exfalso. exact (Hall g Hin Hd).
+  - split.
+    + intros H. injection H as <-. left. split; reflexivity.
+    + intros [[_ ->]|[(H & _)|(H & _)]]; [reflexivity|discriminate|discriminate].
+Qed.
+
+(** the policies the compiler rejects *)
+Theorem compile_reject_iff pol :
+  (exists e, compile le k ai pol = Error e) <->
+  is_named k (p_default pol) = false \/ p_groups pol = [] \/
+  exists g, In g (p_groups pol) /\ group_defect ai g.
+Proof.
+  split.
+  - intros [e H]. apply compile_error_class in H.
+    destruct H as [[H _]|[(_ & H & _)|(_ & _ & H & _)]]; auto.
+  - intros H. destruct (is_named k (p_default pol)) eqn:Hn.
+    + destruct H as [H|[H|H]]; [discriminate| |].
+      * exists ENoSyscalls. apply compile_error_class. right; left. repeat split; assumption.
+      * exists EProblems. apply compile_error_class. right; right. repeat split; try assumption.
+        destruct H as (g & Hin & _). intro E. rewrite E in Hin. destruct Hin.
+    + exists EDefaultAction. apply compile_error_class. left. split; [assumption|reflexivity].
+Qed.
+
+(** the variant with the side condition that the group lists something: the same statement,
+    because a group that lists nothing has no defect *)
+Corollary compile_reject_iff_nonempty pol :
+  (exists e, compile le k ai pol = Error e) <->
+  is_named k (p_default pol) = false \/ p_groups pol = [] \/
+  exists g, In g (p_groups pol) /\ (g_names g <> [] \/ g_nwc g <> []) /\ group_defect ai g.
+Proof.
+  rewrite compile_reject_iff. split.
+  - intros [H|[H|(g & Hin & Hd)]]; [left; exact H|right; left; exact H|right; right].
+    exists g. split; [exact Hin|]. split; [|exact Hd].
+    destruct (g_names g) eqn:En; [|left; discriminate].
+    destruct (g_nwc g) eqn:Ew; [|right; discriminate].
+    exfalso. exact (empty_group_no_defect ai g En Ew Hd).
+  - intros [H|[H|(g & Hin & _ & Hd)]]; [left; exact H|right; left; exact H|right; right].
+    exists g. split; assumption.
+Qed.
+
+(** ** E. Policy.Assemble: acceptance *)
+Theorem compile_accepts pol :
+  is_named k (p_default pol) = true -> p_groups pol <> [] ->
+  (forall g, In g (p_groups pol) -> ~ group_defect ai g) ->
+  exists p, compile le k ai pol = Ok p.
+Proof.
+  intros Hn Hg Hall. destruct (compile le k ai pol) as [p|e] eqn:C; [exists p; reflexivity|].
+  exfalso. assert (H: exists e, compile le k ai pol = Error e) by (exists e; exact C).
+  apply compile_reject_iff in H. destruct H as [H|[H|(g & Hin & Hd)]]; [congruence|congruence|].
+  exact (Hall g Hin Hd).
+Qed.
+
+(** acceptance and rejection are complementary *)
+Corollary compile_accept_iff pol :
+  (exists p, compile le k ai pol = Ok p) <->
+  is_named k (p_default pol) = true /\ p_groups pol <> [] /\
+  forall g, In g (p_groups pol) -> ~ group_defect ai g.
+Proof.
+  split.
+  - intros [p C].
+    assert (N: ~ exists e, compile le k ai pol = Error e) by (intros [e E]; congruence).
+    rewrite compile_reject_iff in N. repeat split.
+    + destruct (is_named k (p_default pol)); [reflexivity|]. exfalso. apply N. left. reflexivity.
+    + intro E. apply N. right; left. exact E.
+    + intros g Hin Hd. apply N. right; right. exists g. split; assumption.
+  - intros (Hn & Hg & Hall). apply compile_accepts; assumption.
+Qed.
+
+End Compile.
+Print Assumptions compile_error_class.
+Print Assumptions compile_reject_iff.
+Print Assumptions compile_accepts.
+
+(** every policy with a named default action, at least one group, and clean groups is accepted *)
+Corollary compile_accepts_clean le k ai pol :
+  is_named k (p_default pol) = true -> p_groups pol <> [] ->
+  (forall g, In g (p_groups pol) -> group_clean ai g) ->
+  exists p, compile le k ai pol = Ok p.
+Proof.
+  intros Hn Hg Hall. apply compile_accepts; [exact Hn|exact Hg|].
+  intros g Hin. apply group_clean_iff. apply Hall. exact Hin.
+Qed.
+Print Assumptions compile_accepts_clean.
+
+(** ** F. Non-vacuity: one policy per kind of defect, on a small architecture *)
+Module Examples.
+Open Scope string_scope.
+
+(** "creat" is listed under the number of "open": two names of one number *)
+Definition ai0 : arch_info :=
+  {| ai_name := "toy"; ai_id := 3221225534; ai_mask := 0;
+     ai_table := [(0, "read"); (1, "write"); (2, "open"); (2, "creat")] |}.
+
+Definition k0 : consts :=
+  {| k_named_actions := [0; 196608; 327680; 2147418112];
+     k_errno := 327680; k_eperm := 1; k_enosys := 38;
+     k_x32mask := 1073741824; k_x86_64_id := 3221225534 |}.
+
+Definition allow : N := 2147418112.
+Definition c_ok1 : cnd := {| c_arg := 0; c_op := OpEq; c_val := 5 |}.
+Definition c_ok2 : cnd := {| c_arg := 5; c_op := OpSet; c_val := 18446744073709551615 |}.
+Definition c_arg6 : cnd := {| c_arg := 6; c_op := OpEq; c_val := 5 |}.
+Definition c_other : cnd := {| c_arg := 1; c_op := OpOther; c_val := 5 |}.
+
+Definition grp (names:list string) (ncs:list nwc) : group :=
+  {| g_names := names; g_nwc := ncs; g_action := allow |}.
+Definition pol1 (g:group) : policy := {| p_default := 327680; p_groups := [g] |}.
+
+Definition comp (pol:policy) := compile true k0 ai0 pol.
+
+Example ex_bad_default :
+  comp {| p_default := 99; p_groups := [grp ["read"] []] |} = Error EDefaultAction.
+Proof. vm_compute. reflexivity. Qed.
+
+(** the default action is checked before everything else *)
+Example ex_bad_default_first :
+  comp {| p_default := 99; p_groups := [] |} = Error EDefaultAction.
+Proof. vm_compute. reflexivity. Qed.
+
+Example ex_no_groups : comp {| p_default := 327680; p_groups := [] |} = Error ENoSyscalls.
+Proof. vm_compute. reflexivity. Qed.
+
+Example ex_unknown_name : comp (pol1 (grp ["read"; "nope"] [])) = Error EProblems.
+Proof. vm_compute. reflexivity. Qed.
+
+Example ex_unknown_cond_name :
+  comp (pol1 (grp ["read"] [{| nc_name := "nope"; nc_conds := [c_ok1] |}])) = Error EProblems.
+Proof. vm_compute. reflexivity. Qed.
+
+Example ex_duplicate : comp (pol1 (grp ["read"; "write"; "read"] [])) = Error EProblems.
+Proof. vm_compute. reflexivity. Qed.
+
+Example ex_duplicate_alias : comp (pol1 (grp ["open"; "creat"] [])) = Error EProblems.
+Proof. vm_compute. reflexivity. Qed.
+
+Example ex_cond_and_uncond :
+  comp (pol1 (grp ["read"] [{| nc_name := "read"; nc_conds := [c_ok1] |}])) = Error EProblems.
+Proof. vm_compute. reflexivity. Qed.
+
+Example ex_bad_arg :
+  comp (pol1 (grp ["read"] [{| nc_name := "write"; nc_conds := [c_ok1; c_arg6] |}])) = Error EProblems.
+Proof. vm_compute. reflexivity. Qed.
+
+Example ex_bad_op :
+  comp (pol1 (grp ["read"] [{| nc_name := "write"; nc_conds := [c_other; c_ok1] |}])) = Error EProblems.
+Proof. vm_compute. reflexivity. Qed.
+
+Example ex_no_conds :
+  comp (pol1 (grp ["read"] [{| nc_name := "write"; nc_conds := [] |}])) = Error EProblems.
+Proof. vm_compute. reflexivity. Qed.
+
+(** a defect in a later group is found as well *)
+Example ex_second_group :
+  comp {| p_default := 327680; p_groups := [grp ["read"] []; grp ["nope"] []] |} = Error EProblems.
+Proof. vm_compute. reflexivity. Qed.
+
+(** the defects of these groups, at the level of the specification *)
+Example ex_defect_duplicate : group_defect ai0 (grp ["open"; "creat"] []).
+Proof.
+  right; right; left. exists 0%nat, 1%nat, "open", "creat", 2. repeat split. discriminate.
+Qed.
+
+Example ex_defect_bad_op : group_defect ai0 (grp ["read"] [{| nc_name := "write"; nc_conds := [c_other; c_ok1] |}]).
+Proof.
+  right; right; right; right; right; left. eexists; exists c_other. repeat split; [left; reflexivity|left; reflexivity].
+Qed.
+
+(** a policy without defects: an entry with two conditions, the same name twice as alternatives *)
+Definition good_group : group :=
+  grp ["read"] [{| nc_name := "write"; nc_conds := [c_ok1; c_ok2] |};
+                {| nc_name := "open"; nc_conds := [c_ok2] |};
+                {| nc_name := "write"; nc_conds := [c_ok2] |}].
+
+Example ex_accepted : exists p, comp (pol1 good_group) = Ok p /\ List.length p = 29%nat.
+Proof. eexists. split; vm_compute; reflexivity. Qed.
+
+Example ex_good_no_defect : ~ group_defect ai0 good_group.
+Proof. rewrite <- to_syscalls_reject_iff. vm_compute. discriminate. Qed.
+
+(** [gen_group_assembles] needs its hypothesis: for an entry that toSyscallsWithConditions would not
+    produce (a condition with an unknown operation behind a valid one: no code is generated for it,
+    so both branches of the preceding jump go to the next instruction) Assemble reports a useless jump *)
+Example ex_entry_ok_needed :
+  (let '(its, n) := gen_group true [EC 1 [[c_ok1; c_other]]] allow in assemble its n) = Error EUseless.
+Proof. vm_compute. reflexivity. Qed.
+
+(** a group that lists nothing is compiled to nothing *)
+Example ex_empty_group : exists p, comp (pol1 (grp [] [])) = Ok p.
+Proof. eexists. vm_compute. reflexivity. Qed.
+End Examples.
